@@ -1012,12 +1012,22 @@ func doInEval(env Env, lhs types.EntityUID, rhs types.Value) (types.Value, error
 		return types.Boolean(entityInOne(env, lhs, rhsv)), nil
 	case types.Set:
 		query := mapset.Make[types.EntityUID](rhsv.Len())
+		// The set is walked in map order. With several members that are not entities, report the same one every
+		// time: the message only names the member's type, so the smallest type name is a canonical choice.
+		var firstErr error
+		var firstName string
 		for rhv := range rhsv.All() {
 			e, err := ValueToEntity(rhv)
 			if err != nil {
-				return zeroValue(), err
+				if name := TypeName(rhv); firstErr == nil || name < firstName {
+					firstErr, firstName = err, name
+				}
+				continue
 			}
 			query.Add(e)
+		}
+		if firstErr != nil {
+			return zeroValue(), firstErr
 		}
 		return types.Boolean(entityInSet(env, lhs, query)), nil
 	}
